@@ -927,8 +927,10 @@ class ExecutionController:
                 return
 
             if stmt_id in self.plan_id_set:
-                # Already in plan, no need to think more.
-                return
+                # Already in plan, but now wanted before everything else:
+                # move it (and, below, its dependencies) to the front.
+                self.plan.remove(stmt_id)
+                self.plan_id_set.remove(stmt_id)
 
             if stmt_id in early_plan:
                 return
